@@ -2085,15 +2085,21 @@ class WassersteinDistanceBregman(VariationalWassersteinDistance):
         if failed:
             new_distance = self.l1_dissipation(flux)
 
-        # Solve for the pressure by solving a single Newton iteration
-        newton_jacobian, _, _ = self._update_regularization(flux)
+        # Solve for the pressure by solving a single Newton iteration. As within the
+        # iteration, the linear solver may fail; the flux is still valid then, but the
+        # result is flagged as not converged (and the pressure is not available).
         solution_i = np.zeros_like(rhs)
         solution_i[self.flux_slice] = flux.copy()
-        newton_residual = self.optimality_conditions(rhs, solution_i)
-        newton_update, _ = self.linear_solve(
-            newton_jacobian, newton_residual, solution_i
-        )
-        solution_i[self.pressure_slice] = newton_update[self.pressure_slice]
+        try:
+            newton_jacobian, _, _ = self._update_regularization(flux)
+            newton_residual = self.optimality_conditions(rhs, solution_i)
+            newton_update, _ = self.linear_solve(
+                newton_jacobian, newton_residual, solution_i
+            )
+            solution_i[self.pressure_slice] = newton_update[self.pressure_slice]
+        except Exception:
+            warnings.warn("Pressure reconstruction failed after the Bregman iteration.")
+            failed = True
 
         # Summarize profiling (time in seconds, memory in GB)
         total_timings = self._analyze_timings(convergence_history["timing"])
